@@ -49,8 +49,8 @@ def resolve_side(side, sts, mts, exposed, injected=(), known_elsewhere=()):
         if len(set(mapping.values())) > 1:
             return 'REJECT', 'mixed'
         return 'EITHER', 'both provides selections non-empty but no two ports differ'
-    if (ns | nm) & injected:
-        return 'EITHER', 'names an injected (not exposed) port'
+    # naming an injected port is naming a port the component HAS: no reason to reject; it is never exposed and its
+    # semantics (if any) does not matter
     return 'ACCEPT', mapping
 
 
